@@ -101,13 +101,28 @@ class Wire:
                 await asyncio.sleep(0)
 
     def eof(self) -> None:
-        if not self.eof_sent and not self.broken:
-            self.eof_sent = True
+        """Peer closes its side.  Like the selector transport (one recv per loop iteration) the EOF
+        is seen in a later loop iteration than data fed before it."""
+        if self.eof_sent or self.broken:
+            return
+        self.eof_sent = True
+        asyncio.get_running_loop().call_soon(self._do_eof)
+
+    def _do_eof(self) -> None:
+        if not self.broken and not getattr(self.reader, "_eof", False):
             self.reader.feed_eof()
 
     def reset(self) -> None:
-        if not self.broken:
-            self.broken = True
+        """Connection reset by peer: asyncio reports it through connection_lost(), which is scheduled
+        with call_soon -- a reader woken by earlier data waits again before the exception arrives."""
+        if self.broken:
+            return
+        self.broken = True
+        self.eof_sent = True
+        asyncio.get_running_loop().call_soon(self._do_reset)
+
+    def _do_reset(self) -> None:
+        if self.reader.exception() is None:
             self.reader.set_exception(ConnectionResetError("fake: connection reset by peer"))
 
     @property
